@@ -281,6 +281,7 @@ class Ctx:
 def _worker(args):
     modname, prop, tier, seed, scale, shard, searching = args
     sys.path.insert(0, HERE)
+    ctx = None
     try:
         import srcload  # noqa: F401  (must precede any falcon import)
         import logging
@@ -290,7 +291,14 @@ def _worker(args):
         mod.run(ctx)
         return ctx.export()
     except BaseException:
-        return {'crash': traceback.format_exc()}
+        tb = traceback.format_exc()
+        try:        # what the worker had observed before it stopped still counts (oracle failures, finished sessions)
+            out = ctx.export()
+            out['exhaustive'] = False
+        except BaseException:
+            return {'crash': tb}
+        out['crash'] = tb
+        return out
 
 
 def run_shards(modname, prop, tier, seed, scale, jobs, searching=False):
@@ -308,7 +316,8 @@ def run_shards(modname, prop, tier, seed, scale, jobs, searching=False):
     for r in results:
         if 'crash' in r:
             merged['crashes'].append(r['crash'])
-            continue
+            if 'corr' not in r:
+                continue
         for k, v in r['corr'].items():
             d = merged['corr'].setdefault(k, {'driver': v['driver'], 'cases': 0, 'ops': 0, 'mismatching_cases': 0})
             for f in ('cases', 'ops', 'mismatching_cases'):
@@ -433,11 +442,16 @@ def main():
 
     crashes = res['crashes'] if res else ['drivers missing: lean build failed']
     unlisted, hits = split(res['oracle_failures']) if res else ([], {})
-    tie_broken = (not lean['ok']) or (res is None) or res['n_mismatches'] > 0
+    # A worker that could not complete its run (an exception surfaced where the harness did not expect one: the implementation raised
+    # through the harness, or no longer has the shape the harness drives) is a BROKEN TIE like a correspondence mismatch - not a verdict by
+    # itself and not a harness error: the decision protocol applies (search; VIOLATION ... no-failing-input-found naming the crash).
+    # Exit 2 stays reserved for timeouts and for a Lean toolchain that cannot run.
+    crashed = bool(res is not None and crashes)
+    tie_broken = (not lean['ok']) or (res is None) or res['n_mismatches'] > 0 or crashed
     searched = None
-    if res is not None and crashes:
-        print('HARNESS ERROR:\n' + crashes[0])
-    if not unlisted and tie_broken and not (res is not None and crashes):
+    if crashed:
+        print('TIE BROKEN - the harness could not complete its run against this tree:\n' + crashes[0])
+    if not unlisted and tie_broken:
         # broken proof / correspondence: not by itself a violation -> search for a concrete failing input
         searched = run_shards(modname, prop, tier, seed + 7919, SEARCH_SCALE[tier], 16, searching=True)
         u2, h2 = split(searched['oracle_failures'])
@@ -475,9 +489,7 @@ def main():
     for k, (e, cnt) in hits.items():
         out_lines.append(f'KNOWN-FINDING: property={prop} {e["what"]} (matched {cnt} observations)')
     os.makedirs(os.path.join(VERIF, 'replays'), exist_ok=True)
-    if res is not None and crashes:
-        rc = 2
-    elif unlisted:
+    if unlisted:
         violations = len(unlisted)
         rp = os.path.join(VERIF, 'replays', f'{prop}_{tier}_{seed}.json')
         json.dump({'property': prop, 'seed': (seed if searched is None else seed + 7919), 'tier': tier,
@@ -496,6 +508,10 @@ def main():
         if not lean['ok']:
             what.append({'broken_proof_obligations': sorted(lean.get('bad_axioms', {}).keys()) or spec.THEOREMS,
                          'broken_files': lean.get('broken_files'), 'forbidden': lean.get('forbidden'), 'log_tail': lean.get('log_tail')})
+        if crashed:
+            what.append({'broken_correspondences': ['the harness could not complete its run against this tree (every correspondence of the property)'],
+                         'exception': crashes[0].strip().splitlines()[-1], 'traceback_tail': crashes[0].strip().splitlines()[-12:],
+                         'workers_that_stopped': len(crashes)})
         if res and res['n_mismatches']:
             what.append({'broken_correspondences': sorted({m['correspondence'] for m in res['mismatches']}),
                          'n_mismatching_cases': res['n_mismatches'], 'first_mismatches': res['mismatches'][:3]})
